@@ -23,3 +23,9 @@ prop("C07", "property-based testing (proptest) with comparison-directed pair con
 prop("C08", "property-based testing (proptest) with overflow-threshold construction against capped exact and modular reference exponentiation / repeated-multiplication logarithm; exhaustive slices at 8 bits",
      "Generated search for all 72 types: (base, exponent) pairs at the overflow threshold (floor(maxbits/log2|a|)+-2, k-th roots of the bound +-1), exponents up to u32::MAX, negative bases with odd/even exponents; ilog/ilog2/ilog10 at exact powers b^k and b^k+-1 for small, power-of-two, multi-digit and maximal bases, invalid arguments for the checked forms; dbg build catches internal overflow panics in the iilog recursion.",
      COMMON_NOTE)
+prop("C09", "property-based testing (proptest) over all ordered type pairs of a 32-type sub-table plus primitives, against reduction modulo 2^(target BITS) in the reference integer; exhaustive for 8/16-bit primitive sources",
+     "Generated search over 1024 bnum x bnum pairs (all four digit types on both sides), 768 bnum<->primitive pairs, bool/char sources, 144 primitive<->primitive impls and the reinterpreting casts on all 36 configurations, with sources built to have sign extension crossing digit boundaries and set bits above the target width; panics are violations.",
+     COMMON_NOTE)
+prop("C13", "property-based testing (proptest) over all ordered type pairs with values embedded at the target's bounds, against the reference integer's range test",
+     "Generated search over TryFrom<bnum> for 12 primitives, BTryFrom for 1024 ordered bnum pairs (+ large configurations), From/TryFrom from every primitive/bool/char into every sufficiently wide type of the 72, and the digit-array API; Ok <=> representable with equal value, never panics.",
+     COMMON_NOTE)
